@@ -80,6 +80,8 @@ def shards(tier, seed, scale=1.0):
     out.append({'name': 'textinv', 'kind': 'textinv', 'seed': seed})
     for s in range(4):
         out.append({'name': 'sets-%d' % s, 'kind': 'sets', 'shard': s, 'of': 4})
+    for s in range(4):
+        out.append({'name': 'real-%d' % s, 'kind': 'real', 'shard': s, 'of': 4, 'budget': 3 if tier == 'quick' else 4})
     return out
 
 
@@ -92,7 +94,55 @@ def run_shard(desc):
         return run_textinv(desc)
     if desc['kind'] == 'sets':
         return run_sets(desc, PROPERTY, select_c02)
+    if desc['kind'] == 'real':
+        return run_real(desc)
     raise HarnessError(desc['kind'])
+
+
+REAL_TREE = [('d', 'a'), ('d', 'a/a'), ('d', 'c'), ('d', '.a'), ('d', 'a/.a'), ('d', 'c/a'), ('f', 'a/c'), ('f', 'a/a/a'), ('f', 'a/a/c'),
+             ('f', 'c/c'), ('f', 'c/a/a'), ('f', '.a/a'), ('f', 'a/.a/c'), ('f', 'cc'), ('f', 'a.c'), ('f', '.c'), ('d', 'a/a/.a')]
+REAL_CONFIGS = [{}, {'globstar': True}, {'globstarlong': True}, {'globstar': True, 'dot': True}, {'matchbase': True}, {'globstar': True, 'matchbase': True},
+                {'globstarlong': True, 'dot': True, 'matchbase': True}, {'globstar': True, 'nodir': True}, {'globstarlong': True, 'follow': True}]
+
+
+def run_real(desc):
+    """REALPATH on a tree without symlinks adds nothing but the existence test: for every entry p of a fixed link-free tree,
+    globmatch(p, pattern, flags | REALPATH, root_dir=tree) must equal globmatch(p (+ separator if a directory), pattern, flags)
+    - the segment / globstar / MATCHBASE rules are the same with and without the capture machinery REALPATH switches on."""
+    from .. import fscommon as FC
+    out = Outcome()
+    out.exhaustive = True
+    s, S = desc['shard'], desc['of']
+    idx = 0
+    with FC.built_tree(REAL_TREE) as (root, _r):
+        entries = [(e[1], e[0] == 'd') for e in REAL_TREE]
+        for segs in enum_pathpats(desc['budget'], atoms=(A.lit('a'), A.lit('c'), A.lit('.'), A.ANY, A.STAR)):
+            idx += 1
+            if idx % S != s:
+                continue
+            for pp in variants(segs, idx):
+                if pp.absolute:
+                    continue
+                text = A.render_path(pp)
+                for cfg in (REAL_CONFIGS[0], REAL_CONFIGS[1 + idx % (len(REAL_CONFIGS) - 1)], REAL_CONFIGS[1 + (idx // 7) % (len(REAL_CONFIGS) - 1)]):
+                    fl = FC.cfg_flags(cfg)
+                    try:
+                        with util.watchdog(5):
+                            for p, isd in entries:
+                                plain = bool(G.globmatch(p + ('/' if isd else ''), text, flags=fl))
+                                real = bool(G.globmatch(p, text, flags=fl | G.REALPATH, root_dir=root))
+                                out.evaluations += 1
+                                if plain != real:
+                                    out.violation({'mode': 'real', 'pattern': text, 'ast': A.to_json(pp), 'cfg': cfg, 'name': p, 'is_dir': isd, 'plain': plain,
+                                                   'realpath': real, 'problem': 'REALPATH changes the verdict on a tree without symlinks'},
+                                                  size=len(text) * 10 + len(p), bucket=('real', real))
+                                    break
+                    except util.HarnessBudget:
+                        out.stats['watchdog_skipped'] += 1
+                if any(isinstance(x, str) for x in segs) or len(segs) > 1:
+                    out.nontrivial(('real', text))
+    out.sample({'stream': 'real', 'tree': [e[1] + ('/' if e[0] == 'd' else '') for e in REAL_TREE], 'patterns': idx // S})
+    return out
 
 
 def variants(segs, idx):
@@ -344,10 +394,17 @@ def replay(case):
         segs = R.split_path(case['name'])[1]
         bad = got and (len(segs) > npieces or (not inside and len(segs) != npieces))
         return (not bad), {'impl': got, 'pieces': npieces, 'segments': len(segs)}
+    if case.get('mode') == 'real':
+        from .. import fscommon as FC
+        with FC.built_tree(REAL_TREE) as (root, _r):
+            fl = FC.cfg_flags(case['cfg'])
+            plain = bool(G.globmatch(case['name'] + ('/' if case['is_dir'] else ''), case['pattern'], flags=fl))
+            real = bool(G.globmatch(case['name'], case['pattern'], flags=fl | G.REALPATH, root_dir=root))
+        return plain == real, {'plain': plain, 'realpath': real}
     return lang.replay_case(case)
 
 
 def shrink(case):
-    if case.get('mode') == 'textinv':
+    if case.get('mode') in ('textinv', 'real'):
         return case
     return lang.shrink_case(case)
